@@ -124,7 +124,41 @@ def with_data_scenario(cfg, root):
     return fails
 
 
+def orphan_metadata_scenario(cfg, root):
+    """custom metadata written for a call that has no memento (yet, or any more): it is part of the call's entry all the same —
+    read back while it is there, gone after forget_call / forget_function / forget_everything, and not attached to the call again
+    when the call is memoized later. (Listings are not compared here.) Returns failures."""
+    w = sw.World(cfg, root=root)
+    fails = []
+    mid = [0]
+    try:
+        def op(o):
+            if o[0] == "memoize":
+                mid[0] += 1
+                o = o[:5] + [mid[0]]
+            return w.apply(o)
+        steps = []
+        for forget in (["fcall", 1, 1], ["ffn", 1], ["fall"]):
+            steps += [(["wmeta", 1, 1, 1, 5], "ok"), (["wmeta", 1, 1, 3, 0], "ok"), (["rmeta", 1, 1, 1], "b:5"), (["rmeta", 1, 1, 3], "b:0"),
+                      (["wmeta", 4, 2, 1, 7], "ok"), (forget, "ok"), (["rmeta", 1, 1, 1], "none"), (["rmeta", 1, 1, 3], "none"),
+                      (["rmeta", 4, 2, 1], "none" if forget[0] == "fall" else "b:7"),
+                      (["memoize", 1, 1, None, 9], "ok"), (["rmeta", 1, 1, 1], "none"), (["rmeta", 1, 1, 3], "none"),
+                      (["wmeta", 1, 1, 1, 6], "ok"), (["rmeta", 1, 1, 1], "b:6"), (["fall"], "ok"), (["rmeta", 1, 1, 1], "none"), (["rmeta", 4, 2, 1], "none")]
+        for i, (o, want) in enumerate(steps):
+            got = op(list(o))
+            if got != want:
+                fails.append(dict(clause="metadata-without-memento", step=i, op=o, got=got, expected=want))
+                break
+    finally:
+        w.close()
+    return fails
+
+
 def main(chk, replay=None):
+    if replay is not None and replay.get("orphan_metadata"):
+        f = orphan_metadata_scenario(replay["config"], None)
+        print(json.dumps(dict(still_fails=bool(f), observed=f[:3]), default=str))
+        return 1 if f else 0
     if replay is not None and replay.get("with_data"):
         f = with_data_scenario(replay["config"], None)
         cl = replay.get("class", {})
@@ -141,7 +175,7 @@ def main(chk, replay=None):
                 "names (f#1, f#10, f#1x, another function, a named-cluster function, a version containing ':') x 3 "
                 "argument hashes x ~40 values (+ 8 partition values in every fifth history, dictionary oracle only), run on memory / fs / fs+separate metadata / fs+cache(600B, 2500B, 200kB). "
                 "Distinct = distinct (backend config, op list); non-trivial = has >= 1 memoize and >= 1 forget or re-memoize.")
-    chk.assumptions += ["write_metadata is only issued for memoized calls (how the framework uses it)",
+    chk.assumptions += ["in the random histories write_metadata is only issued for memoized calls (how the framework uses it); metadata of calls without memento is a directed scenario (reads and forgets, no listings)",
                         "store_with_content_key metadata is outside the op language (a directed scenario, judged by the dictionary oracle only); list limits are checked against the dictionary (count = min(limit, live), subset of the live entries) but are not in the Lean op language"]
     proof_ok = chk.build_and_audit()
     quick = chk.tier == "quick"
@@ -189,6 +223,14 @@ def main(chk, replay=None):
             chk.violation({"what": "metadata stored with the data, backend %s: %s (%s)" % (cfg, f["clause"], f.get("cause")),
                            "class": {"clause": f["clause"], "cause": f.get("cause"), "backend": cfg["kind"]}, "with_data": True, "config": cfg,
                            "observed": [x for x in wf if (x["clause"], x.get("cause")) == key][:2]})
+    for cfg in sw.CONFIGS:
+        of = orphan_metadata_scenario(cfg, chk.tmpdir())
+        chk.case(["metadata-without-memento", cfg], nontrivial=True, sample=dict(kind="metadata of a call that has no memento", config=cfg))
+        chk.count("metadata-without-memento-scenarios")
+        if of:
+            chk.violation({"what": "metadata of a call without memento, backend %s: after %s, %s answers %s (expected %s)" % (
+                cfg, of[0]["op"], "the read", of[0]["got"], of[0]["expected"]), "class": {"clause": of[0]["clause"], "backend": cfg["kind"]},
+                "orphan_metadata": True, "config": cfg, "observed": of[:2]})
     for ops in CORPUS:
         run_all(ops, "corpus")
     for i in range(nhist):
